@@ -304,30 +304,10 @@ impl<const N: u32> PxE2<{ N }> {
         Self::from_bits(u_z)
     }
 
-    pub const fn from_i32(mut i_a: i32) -> Self {
-        if i_a < -2_147_483_135 {
-            Self::from_bits(0x_8050_0000);
-        }
-
+    pub const fn from_i32(i_a: i32) -> Self {
+        // sign and magnitude: the magnitude of every i32 fits a u32
         let sign = i_a.is_negative();
-        if sign {
-            i_a = -i_a;
-        }
-
-        let ui_a = if (N == 2) && (i_a > 0) {
-            0x_4000_0000
-        } else if i_a > 2_147_483_135 {
-            //2147483136 to 2147483647 rounds to P32 value (2147483648)=> 0x7FB00000
-            let mut ui_a = 0x_7FB0_0000; // 2147483648
-            if N < 10 {
-                ui_a &= Self::mask();
-            } else if N < 12 {
-                ui_a = 0x_7FF0_0000 & Self::mask();
-            }
-            ui_a
-        } else {
-            convert_u32_to_px2bits::<{ N }>(i_a as u32)
-        };
+        let ui_a = Self::from_u32(i_a.unsigned_abs()).to_bits();
         Self::from_bits(u32_with_sign(ui_a, sign))
     }
 
@@ -347,24 +327,10 @@ impl<const N: u32> PxE2<{ N }> {
         Self::from_bits(ui_a)
     }
 
-    pub const fn from_i64(mut i_a: i64) -> Self {
+    pub const fn from_i64(i_a: i64) -> Self {
+        // sign and magnitude: the magnitude of every i64 fits a u64
         let sign = i_a.is_negative();
-        if sign {
-            i_a = -i_a;
-        }
-
-        let ui_a = if (N == 2) && (i_a > 0) {
-            0x_4000_0000
-        } else if i_a > 0x_7FFD_FFFF_FFFF_FFFF {
-            //9222809086901354495
-            let mut ui_a = 0x_7FFF_B000; // P32: 9223372036854775808
-            if N < 18 {
-                ui_a &= Self::mask();
-            }
-            ui_a
-        } else {
-            convert_u32_to_px2bits::<{ N }>(i_a as u32)
-        };
+        let ui_a = Self::from_u64(i_a.unsigned_abs()).to_bits();
         Self::from_bits(u32_with_sign(ui_a, sign))
     }
 
